@@ -3,6 +3,7 @@ package main
 import (
 	"context"
 	"fmt"
+	"runtime"
 	"net"
 	"net/http"
 	"net/http/httptest"
@@ -225,6 +226,11 @@ func (e *Engine) RunSched(sc *Script) []Ev {
 			if !gates.releaseOne(who) {
 				return
 			}
+		case "gc":
+			// two collections: the first queues finalizers, which run on
+			// the finalizer goroutine
+			runtime.GC()
+			runtime.GC()
 		default:
 			var a *actor
 			switch who {
